@@ -57,6 +57,11 @@ pub fn build_from(base: OpeningHours, c: &Ctx) -> Result<AnyOh, String> {
             let country: Country = cc.parse().map_err(|_| format!("unknown country {cc}"))?;
             AnyOh::Z(base.with_context(Context::default().with_holidays(country.holidays()).with_locale(TzLocation::new(tz))), tz)
         }
+        Ctx::TzCoords(z, lat, lon) => {
+            let tz: Tz = z.parse().map_err(|_| format!("unknown zone {z}"))?;
+            let co = coords(*lat, *lon).ok_or_else(|| "invalid coordinates".to_string())?;
+            AnyOh::Z(base.with_context(Context::default().with_locale(TzLocation::new(tz).with_coords(co))), tz)
+        }
         Ctx::Coords(lat, lon) => {
             let co = coords(*lat, *lon).ok_or_else(|| "invalid coordinates".to_string())?;
             let ctx = Context::from_coords(co);
